@@ -24,7 +24,8 @@ PORTSETS = [["0", "1", "2"], ["0", "1", "2D"]]
 
 def mk_sem(ports):
     mm = object.__new__(MachineModel)
-    mm._data = {"ports": list(ports), "isa": "x86", "instruction_forms": [], "instruction_forms_dict": defaultdict(list)}
+    mm._data = {"ports": list(ports), "isa": "x86", "instruction_forms": [], "instruction_forms_dict": defaultdict(list),
+                "arch_code": "SYN" + "".join(ports), "micro_architecture": "synthetic", "hidden_loads": False}  # the scalar keys every model file has
     sem = object.__new__(ArchSemantics)
     sem._machine_model, sem._isa, sem._parser = mm, "x86", get_parser("x86")
     return sem, mm
@@ -79,7 +80,7 @@ def check_instr(ports, f, passes):
     allowed = set(p for _, ps in uops for p in ps)
     tol = 0.01 * len(uops) * (1 if passes else 0) + EPS
     for j, p in enumerate(ports):
-        if pp[j] < -tol:
+        if pp[j] < -EPS:  # "nothing is negative": no tolerance in the statement (the 0.01 granularity belongs to the port-set clause)
             bad.append(("negative", f"port {p}: {pp[j]}"))
         if p not in allowed and abs(pp[j]) > EPS:
             bad.append(("foreign-port", f"port {p} carries {pp[j]} but no micro-op may use it"))
